@@ -53,7 +53,7 @@ option record:
       `bytes_to_consume` are at most its length (`chunkBody_ok`: from ANY previous values — they are
       re-declared at l.307-308), and `bof_idx` is at most `opt.bounds.len()` there and at every exit of
       `'new_chunk`.  The only number that is not bounded by a chunk or by the option record is the
-      field counter `curr_field` (an `i32` in the code; at most 1 + the number of delimiters consumed).
+      field counter `curr_field` (an `i32` in the code; it grows by one per delimiter, l.364).
 
 (c) MORE RECORDS, SAME PEAK — `cutLinesForwardOnlyLoopI_replicate`,
     `readAndCutTextAsBytesLoopI_replicate`: `k + 1` copies of a block that ends with the terminator
